@@ -1,6 +1,7 @@
 """C18 - results respect problem symmetries; exact solvers agree beyond oracle size."""
 import random
 from runtime import harness as H
+from props import _ded as D
 from runtime import t3_misc as T
 from runtime.common import CG_SWITCHES
 
@@ -53,4 +54,6 @@ def t3(rep, tier, seed):
 def run(rep, tier, seed):
     rep.level = "exploration"
     rep.assume("A1", "A4", "A6", "A8")
+    D.run_contracts(rep, "C18", D.relational(), tier)
     t3(rep, tier, seed)
+    D.link_falsifier(rep)
